@@ -231,7 +231,7 @@ fn outputs_in(request: &Value) -> Vec<String> {
         .unwrap_or_default()
 }
 
-fn run_case(report: &Report, rt: &Arc<tokio::runtime::Runtime>, provider: &Provider, key: &str, s: &Script, choice: &Choice, stateless: bool) {
+fn run_case(report: &Report, rt: &Arc<tokio::runtime::Runtime>, provider: &Provider, key: &str, s: &Script, choice: &Choice, stateless: bool, numbering_only: bool) {
     let evs = events_of(s);
     provider.script(
         key,
@@ -260,6 +260,25 @@ fn run_case(report: &Report, rt: &Arc<tokio::runtime::Runtime>, provider: &Provi
     let case = || json!({"engine": "P", "harness": "c16.tool_loop", "script": format!("{s:?}"), "tool_choice": format!("{choice:?}"), "stateless_history": stateless});
     let received = provider.received(key);
     let events = app.log_events();
+    // every stream of the log reads 0,1,2,... in file order (each branch of the loop - executed,
+    // refused, failed, unknown tool - threads the session counter through its synthesized frames)
+    {
+        let mut per: std::collections::BTreeMap<(String, String), Vec<u64>> = std::collections::BTreeMap::new();
+        for e in &events {
+            per.entry((format!("{:?}", e.stream_kind()), e.stream_id().to_string())).or_default().push(e.seq);
+        }
+        for ((kind, _), seqs) in per {
+            if seqs != (0..seqs.len() as u64).collect::<Vec<_>>() {
+                let sig = if numbering_only { format!("C01:stream_numbering:tool_loop:{choice:?}") } else { format!("C16:log_numbering:{choice:?}") };
+                report.violation(&sig, case(), &format!("a {kind} stream of the run reads {seqs:?}"));
+                break;
+            }
+        }
+    }
+    if numbering_only {
+        provider.forget(key);
+        return;
+    }
     // reference: completed calls = distinct call ids in emission order, ordered by output_index (stable)
     let n = s.items.len();
     let mut calls: Vec<(usize, String, &Item)> = Vec::new(); // (output_index, call id, item)
@@ -387,6 +406,32 @@ fn run_endless(report: &Report, rt: &Arc<tokio::runtime::Runtime>, provider: &Pr
     provider.forget(key);
 }
 
+/// C01 part: the session / thread counters through every branch of the tool loop (sequential
+/// runs; the oracle is the per-stream numbering of the log). Scripts with at most one call x all
+/// seven tool_choice settings x both history modes.
+pub fn numbering_sweep(report: &Report) {
+    let rt = new_mt_rt();
+    let provider = Provider::start(&rt);
+    let all: Vec<Script> = scripts(Tier::Quick).into_iter().filter(|s| s.items.len() <= 1).collect();
+    report.set_extra("tool_loop_numbering_scripts", json!(all.len()));
+    let counter = std::sync::atomic::AtomicUsize::new(0);
+    let pool = rayon::ThreadPoolBuilder::new().num_threads(12).build().expect("pool");
+    pool.install(|| {
+        all.par_iter().for_each(|s| {
+            if report.over_cap() {
+                return;
+            }
+            for c in [Choice::Auto, Choice::NoneMode, Choice::Required, Choice::FnWrite, Choice::FnRead, Choice::AllowedRead, Choice::AllowedEmpty] {
+                for stateless in [false, true] {
+                    let n = counter.fetch_add(1, std::sync::atomic::Ordering::SeqCst);
+                    run_case(report, &rt, &provider, &format!("c01n-{n}/v1/responses"), s, &c, stateless, true);
+                    report.count("tool_loop_runs_numbering_checked", 1);
+                }
+            }
+        });
+    });
+}
+
 pub fn run(opts: Opts) -> i32 {
     let report = Report::new("C16", "exploration", opts.clone());
     report.set_rule(
@@ -424,7 +469,7 @@ pub fn run(opts: Opts) -> i32 {
                         continue;
                     }
                     let n = counter.fetch_add(1, std::sync::atomic::Ordering::SeqCst);
-                    run_case(&report, &rt, &provider, &format!("c16-{n}/v1/responses"), s, c, stateless);
+                    run_case(&report, &rt, &provider, &format!("c16-{n}/v1/responses"), s, c, stateless, false);
                 }
             }
         });
